@@ -238,6 +238,8 @@ pub struct TraceEv {
     /// probe results, each taken twice
     pub probes: Vec<(String, String)>,
     pub reply: Option<(u64, Vec<u8>, ReplySeen)>,
+    /// own storage iterated in descending order: at entry, and again after the call's own writes
+    pub storage_desc: (Vec<(Vec<u8>, Vec<u8>)>, Vec<(Vec<u8>, Vec<u8>)>),
 }
 
 thread_local! {
@@ -362,9 +364,16 @@ fn interpret<C: Flavor, Q: CustomQuery>(
             storage,
             probes,
             reply,
+            storage_desc: (deps.storage.range(None, None, Order::Descending).collect(), vec![]),
         })
     });
     apply_writes(deps.storage, &script.writes);
+    let after: Vec<(Vec<u8>, Vec<u8>)> = deps.storage.range(None, None, Order::Descending).collect();
+    TRACE.with(|t| {
+        if let Some(last) = t.borrow_mut().last_mut() {
+            last.storage_desc.1 = after;
+        }
+    });
     if script.fail {
         return Err(StdError::generic_err(format!("scripted failure at node {}", script.tag)));
     }
